@@ -525,6 +525,11 @@ func c19RunCompiled(c *mc.Ctx, sample []c19Compiled) {
 	}
 	mb.WriteString("}\n")
 	r := st3.Run(fmt.Sprintf("c19.%d", c.Shard), pkgs, mb.String(), false, nil)
+	if r.Stopped != "" {
+		c.Stats.Inconcl++
+		c.Stats.Cap("the compiled sample was stopped by the safety net (" + r.Stopped + ")")
+		return
+	}
 	if r.BuildErr != "" {
 		c.Stats.HarnessError("stage-3 build for C19: %s", strings.Join(head(strings.Split(r.BuildErr, "\n"), 4), " | "))
 		return
